@@ -8,6 +8,10 @@
         "ptr" (T -> I)   "srv" "txt" (at I)   "a" (at H)   "nsec" (no AAAA at H)   "enum" (_services._dns-sd._udp -> T)
    A case:
         q         1..MaxQ questions [n, t, qu]: name T / I / H / E (enumeration) / X (not registered), type, QU bit
+        first     how many of them travel in the first packet: Len(q) for an ordinary query; less for a truncated query whose
+                  questions are spread over two packets (0: the packet that arrived first carries known answers only).  The
+                  code keeps the questions of the *first* packet (msgs[0].questions) for its "single question" rule and takes
+                  the answer strategies from the questions of *all* packets
         ucastSrc  the query came from a port other than 5353
         probe     it has an authority section
         known     the records the querier lists as known answers with more than half of their TTL
@@ -27,11 +31,12 @@
 EXTENDS Integers, Sequences, FiniteSets, TLC
 
 CONSTANTS MaxQ, KnownUniverse, Deviations,
+          TwoPackets,        \* the questions may be spread over the two packets of a truncated query
           QuarterRule,       \* TRUE: the code.  FALSE: a QU answer is never multicast (slip)
           LastSecondRule     \* TRUE: the code.  FALSE: the one-second protection is skipped (slip)
 
-VARIABLES q, ucastSrc, probe, known, rec, out, phase
-vars == <<q, ucastSrc, probe, known, rec, out, phase>>
+VARIABLES q, first, ucastSrc, probe, known, rec, out, phase
+vars == <<q, first, ucastSrc, probe, known, rec, out, phase>>
 
 Recs == {"ptr", "srv", "txt", "a", "nsec", "enum"}
 Ages == {"none", "lastsec", "quarter", "old"}
@@ -75,7 +80,7 @@ Apply(o, s, qq) ==
                     !.u = @ \cup {r \in rs : probe \/ (QuarterRule => WithinQuarter(r))},
                     !.now = @ \cup {r \in rs : QuarterRule /\ ~WithinQuarter(r)}]
      ELSE \* add_ucast_question_response (legacy source only), then add_mcast_question_response
-          LET single == Len(q) = 1 /\ q[1].t \in Immediate IN
+          LET single == first = 1 /\ q[1].t \in Immediate IN      \* len(self._questions) == 1: the first packet's
           [o EXCEPT !.adds = adds,
                     !.u = IF ucastSrc THEN @ \cup rs ELSE @,
                     !.now = @ \cup {r \in rs : probe \/ (~(LastSecondRule /\ LastSecond(r)) /\ single)},
@@ -94,6 +99,7 @@ Result(o) == [u |-> o.u, now |-> o.now, agg |-> o.agg, last |-> o.last,
 
 Init ==
   /\ q \in UNION {[1..k -> Questions] : k \in 1..MaxQ}
+  /\ first \in (IF TwoPackets THEN 0..Len(q) ELSE {Len(q)})
   /\ ucastSrc \in BOOLEAN /\ probe \in BOOLEAN
   /\ known \in SUBSET KnownUniverse
   /\ \E g \in Ages : \E d \in Deviations \cup {"-"} : \E g2 \in Ages :
@@ -105,7 +111,7 @@ Respond ==
   /\ phase = "in"
   /\ out' = IF NoStrategy THEN Empty ELSE Result(RunQuestions(Empty, 1))
   /\ phase' = "done"
-  /\ UNCHANGED <<q, ucastSrc, probe, known, rec>>
+  /\ UNCHANGED <<q, first, ucastSrc, probe, known, rec>>
 
 Next == Respond
 Spec == Init /\ [][Next]_vars
@@ -122,25 +128,31 @@ Owed(qq) == Match(qq) \ Kn
 Qs == {q[k] : k \in 1..Len(q)}
 SingleImmediate == Len(q) = 1 /\ q[1].t \in Immediate
 
-\* where the answer r to question qq goes
-RouteOf(qq, r) ==
+\* "a query consisting of a single SRV, A or AAAA question": for a query that came in two packets the statement can be read on the
+\* query as a whole or on the packet that carried the question section first; both readings are accepted, consistently
+FirstSingle == first = 1 /\ q[1].t \in Immediate
+Readings == {SingleImmediate, FirstSingle}
+\* where the answer r to question qq goes (S: the query counts as a single immediate question)
+RouteOf(qq, r, S) ==
   IF ~ucastSrc /\ qq.qu
   THEN [u |-> probe \/ WithinQuarter(r), now |-> ~WithinQuarter(r), agg |-> FALSE, last |-> FALSE]
   ELSE [u |-> ucastSrc,
-        now |-> probe \/ (~LastSecond(r) /\ SingleImmediate),
-        agg |-> ~probe /\ ~LastSecond(r) /\ ~SingleImmediate,
+        now |-> probe \/ (~LastSecond(r) /\ S),
+        agg |-> ~probe /\ ~LastSecond(r) /\ ~S,
         last |-> ~probe /\ LastSecond(r)]
-Want(f(_)) == {r \in Recs : \E qq \in Qs : r \in Owed(qq) /\ f(RouteOf(qq, r))}
+WantS(f(_), S) == {r \in Recs : \E qq \in Qs : r \in Owed(qq) /\ f(RouteOf(qq, r, S))}
+Want(f(_)) == WantS(f, SingleImmediate)
 
 Asked == phase = "done" => (out.u \cup out.now \cup out.agg \cup out.last) = UNION {Owed(qq) : qq \in Qs}
-Routes == phase = "done" =>
-  /\ out.u = Want(LAMBDA x : x.u)
-  /\ out.now = Want(LAMBDA x : x.now)
-  /\ out.agg = Want(LAMBDA x : x.agg)
-  /\ out.last = Want(LAMBDA x : x.last)
+RoutesUnder(S) ==
+  /\ out.u = WantS(LAMBDA x : x.u, S)
+  /\ out.now = WantS(LAMBDA x : x.now, S)
+  /\ out.agg = WantS(LAMBDA x : x.agg, S)
+  /\ out.last = WantS(LAMBDA x : x.last, S)
+Routes == phase = "done" => \E S \in Readings : RoutesUnder(S)
 Own == [r \in Recs |-> CASE r = "ptr" -> {"srv", "txt", "a", "nsec"} [] r = "srv" -> {"a", "nsec"} [] r = "a" -> {"nsec"} [] OTHER -> {}]
 AddsOwn == phase = "done" => \A r \in Recs : out.adds[r] \subseteq Own[r] /\ r \notin out.adds[r]
-EmitBehaviour == IF phase = "done" THEN PrintT(<<"BEHAVIOUR", q, ucastSrc, probe, known, rec, out>>) ELSE TRUE
+EmitBehaviour == IF phase = "done" THEN PrintT(<<"BEHAVIOUR", q, ucastSrc, probe, known, rec, out, first>>) ELSE TRUE
 \* every K-th case only (one worker: the count is deterministic)
 EmitEvery(K) == IF phase = "done" THEN /\ TLCSet(60, TLCGet(60) + 1)
                                       /\ (IF TLCGet(60) % K = 0 THEN EmitBehaviour ELSE TRUE)
